@@ -761,7 +761,8 @@ fn build_model(rng: &mut Rng, name: &str, opts: &GenOpts) -> Model {
                 rng.range(1, 3)
             } as usize;
             let default_variant = rng.usize(nv);
-            let with_disc = rng.chance(1, 4);
+            // (C-like table enums usually spell their values out)
+            let with_disc = if table { rng.chance(1, 2) } else { rng.chance(1, 4) };
             let no_unit = traits.iter().any(|t| matches!(*t, "Deref" | "DerefMut" | "Into"));
             for vi in 0..nv {
                 let shape = match if table && !no_unit { 0 } else if no_unit { rng.range(1, 2) } else { rng.below(3) } {
